@@ -26,19 +26,29 @@ func O10(rc *RC, floor int) {
 			continue
 		}
 		_, tree := sCanon(rc, fi)
-		if !strings.Contains(ir.Render(tree), "freeScalar(") {
+		if !strings.Contains(stripFuncLits(ir.Render(tree)), "freeScalar(") {
 			continue
 		}
 		pos := rc.P.Pos(fi.Decl.Pos())
 		flags := map[string]bool{}
-		for _, n := range flatten(tree) {
-			if n.Kind != "tuple" {
-				continue
-			}
-			for callee, idx := range flagPos {
-				if strings.HasPrefix(n.Value, callee) && len(n.Targets) > idx {
-					flags[n.Targets[idx]] = true
+		collect := func(tree []*ir.Node) {
+			for _, n := range flatten(tree) {
+				if n.Kind != "tuple" {
+					continue
 				}
+				for callee, idx := range flagPos {
+					if strings.HasPrefix(n.Value, callee) && len(n.Targets) > idx {
+						flags[n.Targets[idx]] = true
+					}
+				}
+			}
+		}
+		collect(tree)
+		// a function literal (deferred cleanup) sees the flag its enclosing function received
+		if i := strings.Index(fi.Key, "$"); i > 0 {
+			if parent := rc.P.Func(fi.Key[:i]); parent != nil {
+				_, pt := sCanon(rc, parent)
+				collect(pt)
 			}
 		}
 		count := 0
@@ -55,8 +65,8 @@ func O10(rc *RC, floor int) {
 					walk(n.Kids, g)
 					continue
 				}
-				if !strings.Contains(n.Head, "freeScalar(") {
-					continue
+				if !strings.Contains(stripFuncLits(n.Head), "freeScalar(") {
+					continue // (calls inside a function literal are judged in the literal's own unit)
 				}
 				count++
 				key := fmt.Sprintf("%s#freeScalar%d", fi.Key, count)
